@@ -1235,3 +1235,117 @@ N('c17-clear-order', 'C17', PARSE,
   "        self._error_output = ''\n        self._code_gen.clear()\n        self._context.clear()")
 N('c17-reset-order', 'C17', MACHINE,
   "        self._reg.reset()\n        self._constants.clear()", "        self._constants.clear()\n        self._reg.reset()")
+
+# ------------------------------------------------------------------ C18
+B('c18-no-units-raw', 'C18', 'R18.a', SNAPSHOT,
+  "        super().start_snapshot()\n        self.append('units raw\\n')\n\n    def setting(self, reg, value):",
+  "        super().start_snapshot()\n\n    def setting(self, reg, value):")
+B('c18-units-logical', 'C18', 'R18.a', SNAPSHOT,
+  "        self.append('units raw\\n')", "        self.append('units logical\\n')")
+B('c18-name-unquoted', 'C18', 'R18.b', SNAPSHOT,
+  """        self.append('set "{}"\\n'.format(light.get_name()))""",
+  """        self.append('set {}\\n'.format(light.get_name()))""")
+B('c18-bad-keyword', 'C18', 'R18.b', SNAPSHOT,
+  """        self.append('stage row {} column {}\\n'.format(row, column))""",
+  """        self.append('stage rows {} column {}\\n'.format(row, column))""")
+B('c18-zone-missing-number', 'C18', 'R18.b', SNAPSHOT,
+  """        self.append('set "{}" zone {}\\n'.format(light.get_name(), number))""",
+  """        self.append('set "{}" zone {}\\n'.format(light.get_name()))""")
+B('c18-kelvin-dropped', 'C18', 'R18.c', SNAPSHOT,
+  "        self.setting(Register.KELVIN, raw_color[3])\n", "")
+B('c18-sat-bright-swapped', 'C18', 'R18.c', SNAPSHOT,
+  "        self.setting(Register.SATURATION, raw_color[1])\n        self.setting(Register.BRIGHTNESS, raw_color[2])",
+  "        self.setting(Register.SATURATION, raw_color[2])\n        self.setting(Register.BRIGHTNESS, raw_color[1])")
+B('c18-power-dropped', 'C18', 'R18.c', SNAPSHOT,
+  "                    self.light(light)\n                    self.power(light)\n", "                    self.light(light)\n")
+B('c18-matrix-skips-last-column', 'C18', 'R18.c', SNAPSHOT,
+  """            for column in range(0, light_matrix.width):
+                self.matrix_cell(row, column, mat[row][column])""",
+  """            for column in range(0, light_matrix.width - 1):
+                self.matrix_cell(row, column, mat[row][column])""")
+B('c18-capture-no-filter', 'C18', 'R20.d', WEBAPP,
+  "        out_file.write(ScriptSnapshot().generate(None).text)", "        out_file.write(ScriptSnapshot().generate().text)")
+N('c18-units-raw-spacing', 'C18', SNAPSHOT,
+  "        self.append('units raw\\n')", "        self.append('units  raw\\n')")
+
+# ------------------------------------------------------------------ C19
+B('c19-printf-counts-named', 'C19', 'R19.b', IOPARSER,
+  "                 and (len(field[1]) == 0 or field[1].isdecimal())))", "                 ))")
+B('c19-vm-named-includes-numbers', 'C19', 'R19.b', VMIO,
+  "            if name is not None and len(name) > 0 and not name.isdecimal():",
+  "            if name is not None and len(name) > 0:")
+B('c19-flush-in-try', 'C19', 'R19.c', MACHINE,
+  """        finally:
+            self._clock.stop()
+            self._vm_io.flush()""",
+  """            self._vm_io.flush()
+        finally:
+            self._clock.stop()""")
+B('c19-no-newline-escape', 'C19', 'R19.d', VMIO,
+  "        format_str = inst.param1.replace('\\\\n', '\\n')", "        format_str = inst.param1")
+B('c19-println-no-newline', 'C19', 'R19.d', VMIO,
+  "            case IoOp.PRINT_END:\n                output.newline()", "            case IoOp.PRINT_END:\n                output.flush()")
+B('c19-no-separator', 'C19', 'R19.d', STDOUT,
+  "        if self._line_pending:\n            print(' ', end='')\n\n", "")
+B('c19-printf-values-kept', 'C19', 'R19.d', VMIO,
+  "        output.out(format_str.format(*self._unnamed, **named))\n        self._unnamed.clear()",
+  "        output.out(format_str.format(*self._unnamed, **named))")
+N('c19-named-test-rewritten', 'C19', VMIO,
+  "            if name is not None and len(name) > 0 and not name.isdecimal():",
+  "            if name is not None and not (len(name) == 0 or name.isdecimal()):")
+
+# ------------------------------------------------------------------ C20
+B('c20-job-outside-queue-script', 'C20', 'R20.a', WEBAPP,
+  "    def stop_script(self, path) -> bool:\n        return self._jobs.stop_job(path)",
+  "    def stop_script(self, path) -> bool:\n        self._jobs.add_job(ScriptJob.from_file(path), path)\n        return self._jobs.stop_job(path)")
+B('c20-route-runs-file', 'C20', 'R20.a', FRONT,
+  """        script_control = web_app.get_script_control(path)
+        if script_control is not None:
+            if script_control.running or web_app.queue_script(script_control):
+                return self.render_action(script_control, "Started")
+        return self.index()""",
+  """        script_control = web_app.get_script_control(path)
+        if script_control is not None:
+            if script_control.running or web_app.queue_script(script_control):
+                return self.render_action(script_control, "Started")
+        else:
+            web_app.queue_file(path)
+        return self.index()""")
+B('c20-title-unescaped', 'C20', 'R20.b', WEBAPP,
+  "        self.title = html.escape(title)", "        self.title = title")
+B('c20-path-unescaped', 'C20', 'R20.b', WEBAPP,
+  "        self.path = html.escape(path)", "        self.path = path")
+B('c20-template-safe', 'C20', 'R20.b', 'web/templates/action.html',
+  "      {{ script.title }}\n      {% if message %}", "      {{ script.title|safe }}\n      {% if message %}")
+B('c20-stop-all-none', 'C20', 'R20.c', FRONT,
+  """        web_app.stop_all()
+        if script_control is None:
+            return self.index()
+""", "        web_app.stop_all()\n")
+B('c20-run-script-unchecked', 'C20', 'R20.c', FRONT,
+  """        if script_control is not None:
+            if script_control.running or web_app.queue_script(script_control):
+                return self.render_action(script_control, "Started")
+        return self.index()""",
+  """        if script_control.running or web_app.queue_script(script_control):
+            return self.render_action(script_control, "Started")
+        return self.index()""")
+B('c20-status-no-filter', 'C20', 'R20.d', WEBAPP,
+  "            'lights': TextSnapshot().generate(None).text,", "            'lights': TextSnapshot().generate().text,")
+B('c20-queue-again-when-running', 'C20', 'R20.e', FRONT,
+  "            if script_control.running or web_app.queue_script(script_control):",
+  "            if web_app.queue_script(script_control):")
+B('c20-running-asked-by-file', 'C20', 'R20.e', WEBAPP,
+  "            script_control.running = self._jobs.is_running(script_control.path)",
+  "            script_control.running = self._jobs.is_running(script_control.file_name)")
+B('c20-background-queued', 'C20', 'R20.e', WEBAPP,
+  "            self._jobs.spawn_job(job, script_control.path)", "            self._jobs.add_job(job, script_control.path)")
+N('c20-none-check-flipped', 'C20', FRONT,
+  """        web_app.stop_all()
+        if script_control is None:
+            return self.index()
+        return self.render_action(script_control, "Requested")""",
+  """        web_app.stop_all()
+        if script_control is not None:
+            return self.render_action(script_control, "Requested")
+        return self.index()""")
